@@ -484,3 +484,42 @@ Theorem C02_mixed_nonvacuous :
        ob_k sink = k /\ ob_tree sink = mkTree (blen HO data) bs /\ sink_ok HO data bs sink).
 Proof. exact mixed_apply_nonvacuous. Qed.
 Print Assumptions C02_mixed_nonvacuous.
+
+(* ---- collision form (Proofs/Collision.v; depends on Classical_Prop.classic and on nothing else): the idealised hypothesis
+   cv_injective is dropped; under 32-byte outputs and a correct byte comparison the conclusion holds OR the hash functions
+   have a collision between two distinct valid inputs ---- *)
+From BaoV Require Import Proofs.Collision.
+Theorem C02_roundtrip_full_decode_ranges_or_collision : forall (HO : hops), cv_len32 HO -> beq_correct HO ->
+  (forall (data : bytes HO) (bs : N), (blen HO data <= 2 ^ 63)%N -> (bs <= 10)%N ->
+  forall ob : outboard HO, created_store HO data bs ob ->
+  forall q : ranges, wf_ranges q = true -> q <> [] ->
+  forall (rest target : bytes HO) (sink : outboard HO),
+  ob_root sink = root_hash HO data -> ob_tree sink = mkTree (blen HO data) bs ->
+  forall enc1 enc2,
+  encode_ranges_validated HO data ob q = (Ok tt, enc1) ->
+  encode_ranges_validated_fsm HO data ob q = (Ok tt, enc2) ->
+  enc1 = enc2 /\
+  let a := apply_items HO (honest HO data bs q) target sink in
+  (exists st', decode_ranges HO (enc1 ++ rest) q target sink =
+               (ranges_result (a_res HO a) Finished, a_target HO a, a_ob HO a, st')) /\
+  (exists st', decode_ranges_fsm HO (enc1 ++ rest) q target sink =
+               (ranges_result (a_res HO a) Finished, a_target HO a, a_ob HO a, st'))) \/
+  collision HO.
+Proof. intros HO Hl Hb. apply (or_collision HO _ Hl Hb). exact (C02_roundtrip_full_decode_ranges HO). Qed.
+Print Assumptions C02_roundtrip_full_decode_ranges_or_collision.
+
+Theorem C02_e2e_create_encode_decode_or_collision : forall (HO : hops), cv_len32 HO -> beq_correct HO ->
+  (forall (data : bytes HO) (bs : N), (blen HO data <= 2 ^ 63)%N -> (bs <= 10)%N ->
+  forall ob : outboard HO, created_store HO data bs ob ->
+  forall q : ranges, wf_ranges q = true ->
+  exists enc : bytes HO,
+    encode_ranges_validated HO data ob q = (Ok tt, enc) /\
+    encode_ranges_validated_fsm HO data ob q = (Ok tt, enc) /\
+    forall (D : N -> bool) (st : bytes HO * outboard HO) (rest : bytes HO) (fsm : bool),
+    Inv HO data bs D st ->
+    Inv HO data bs (fun c => D c || sel q (blen HO data) c)
+        (hist_step HO st (mkOp HO q (enc ++ rest) no_faults fsm))) \/
+  collision HO.
+Proof. intros HO Hl Hb. apply (or_collision HO _ Hl Hb). exact (C02_e2e_create_encode_decode HO). Qed.
+Print Assumptions C02_e2e_create_encode_decode_or_collision.
+
